@@ -330,7 +330,7 @@ Proof.
   intros I H. unfold i_get in H.
   destruct (i_get_nowait kd m s) as [r1 s1] eqn:E.
   destruct (sim_get_nowait _ _ _ _ _ I E) as [S1 [I1 [Len R]]].
-  cbn [sstep]. rewrite S1. change (sfuts (abs kd s)) with (ifuts s). rewrite <- Len in H |- *.
+  change (sstep kd m (Get tmo) (abs kd s)) with (s_get_op kd tmo (abs kd s)). unfold s_get_op. rewrite S1. change (sfuts (abs kd s)) with (ifuts s). rewrite <- Len in H |- *.
   pose proof I1 as [Hev Hge Hpf Hmax Hgk Hpk Hwk Hgnd Hpnd Hjw].
   destruct R as [[z ->]|[-> Q]].
   - inversion H; subst; clear H. split.
@@ -462,33 +462,56 @@ Proof.
 Qed.
 
 (* ---------------- drain / expire / cancel ---------------- *)
-Lemma drain_pending f : is_pending (fstat (drain_fut f)) = is_pending (fstat f).
-Proof. unfold drain_fut. destruct (fstat f) eqn:E; simpl; rewrite ?E; reflexivity. Qed.
+Lemma drain_pending_imp f : is_pending (fstat (drain_fut f)) = true -> is_pending (fstat f) = true.
+Proof.
+  unfold drain_fut. destruct (fstat f) eqn:E; simpl;
+    try (intros; reflexivity); try (rewrite E; simpl; intros H; exact H); try (intros H; discriminate H).
+Qed.
 Lemma drain_kind f : fk (drain_fut f) = fk f.
-Proof. unfold drain_fut. destruct (fstat f); reflexivity. Qed.
+Proof. unfold drain_fut. destruct (fstat f); try reflexivity. destruct (is_zero (ftmo f)); reflexivity. Qed.
 
+Lemma live_drain_imp fs k : live (map drain_fut fs) k = true -> live fs k = true.
+Proof.
+  rewrite !live_spec, nth_error_map. destruct (nth_error fs k) as [f|]; simpl; [apply drain_pending_imp|auto].
+Qed.
+
+Lemma filter_sub {A} (p q : A -> bool) l :
+  (forall a, p a = true -> q a = true) -> filter p (filter q l) = filter p l.
+Proof.
+  intros H. induction l as [|a l IH]; simpl; [reflexivity|].
+  destruct (q a) eqn:Q; simpl.
+  - rewrite IH. reflexivity.
+  - destruct (p a) eqn:P; [rewrite (H a P) in Q; discriminate|exact IH].
+Qed.
+
+Lemma filter_sub_nonnil {A} (p q : A -> bool) l :
+  (forall a, p a = true -> q a = true) -> filter p l <> [] -> filter q l <> [].
+Proof. intros H N E. apply N. rewrite <- (filter_sub p q l H), E. reflexivity. Qed.
+
+(* the loop runs: queued copies complete, due (zero) timers fire; the waiters
+   they kill disappear from the abstraction at once *)
 Lemma sim_drain kd m s :
-  Inv m s ->
-  abs kd (i_drain s) = mksst (sq (abs kd s)) (sgetters (abs kd s)) (sputters (abs kd s)) (sunf (abs kd s))
-                             (map drain_fut (sfuts (abs kd s))) /\ Inv m (i_drain s).
+  Inv m s -> abs kd (i_drain s) = s_drain (abs kd s) /\ Inv m (i_drain s).
 Proof.
   intros I. pose proof I as [Hev Hge Hpf Hmax Hgk Hpk Hwk Hgnd Hpnd Hjw].
   unfold glive, plive in Hge, Hpf.
-  assert (EG : filter (livek gkey (map drain_fut (ifuts s))) (igetters s) = filter (livek gkey (ifuts s)) (igetters s)).
-  { apply filter_live_map_in. intros; apply drain_pending. }
-  assert (EP : filter (livek pkey (map drain_fut (ifuts s))) (iputters s) = filter (livek pkey (ifuts s)) (iputters s)).
-  { apply filter_live_map_in. intros; apply drain_pending. }
+  assert (LG : forall a, livek gkey (map drain_fut (ifuts s)) a = true -> livek gkey (ifuts s) a = true)
+    by (intros a; apply live_drain_imp).
+  assert (LP : forall a, livek pkey (map drain_fut (ifuts s)) a = true -> livek pkey (ifuts s) a = true)
+    by (intros a; apply live_drain_imp).
   assert (KM : forall j, kind_of (map drain_fut (ifuts s)) j = kind_of (ifuts s) j).
   { intros j. apply kind_of_map. apply drain_kind. }
   split.
-  - unfold abs, i_drain, glive, plive; simpl. rewrite EG, EP. reflexivity.
-  - constructor; unfold i_drain, glive, plive; simpl; rewrite ?EG, ?EP; auto.
+  - unfold abs, s_drain, i_drain, glive, plive; simpl. rewrite !filter_sub by assumption. reflexivity.
+  - constructor; unfold i_drain, glive, plive; simpl; auto.
+    + intros N. apply Hge. eapply filter_sub_nonnil; [exact LG|exact N].
+    + intros N. apply Hpf. eapply filter_sub_nonnil; [exact LP|exact N].
     + eapply Forall_impl; [|exact Hgk]. intros a Ha. rewrite KM. exact Ha.
     + eapply Forall_impl; [|exact Hpk]. intros a Ha. rewrite KM. exact Ha.
     + eapply Forall_impl; [|exact Hwk]. intros a Ha. rewrite KM. exact Ha.
     + intros k f Hn Hk Hs. rewrite nth_error_map in Hn.
       destruct (nth_error (ifuts s) k) as [f0|] eqn:E0; [|discriminate]. simpl in Hn. inversion Hn; subst f; clear Hn.
-      rewrite drain_kind in Hk. pose proof (drain_pending f0) as P. rewrite Hs in P. simpl in P.
+      rewrite drain_kind in Hk. pose proof (drain_pending_imp f0) as P. rewrite Hs in P. specialize (P eq_refl).
       eapply Hjw; eauto. destruct (fstat f0); try discriminate; reflexivity.
 Qed.
 
@@ -507,7 +530,7 @@ Proof.
   cbn [sstep]. rewrite <- A. unfold i_expire.
   change (sfuts (abs kd (i_drain s))) with (ifuts (i_drain s)).
   destruct (nth_error (ifuts (i_drain s)) k) as [f|]; [|split; [reflexivity|exact I1]].
-  destruct (is_pending (fstat f) && ftmo f); [|split; [reflexivity|exact I1]].
+  destruct (is_pending (fstat f) && is_timer (ftmo f)); [|split; [reflexivity|exact I1]].
   split; [rewrite abs_finish by reflexivity; reflexivity|apply Inv_upd; [exact I1|reflexivity]].
 Qed.
 
@@ -534,6 +557,7 @@ Proof.
     destruct (sim_get_nowait _ _ _ _ _ I E) as [A [B _]]. cbn [sstep]. rewrite A.
     destruct r1; inversion H; subst; clear H; try (split; [reflexivity|exact B]).
     split; [reflexivity|apply Inv_with_gh; exact B].
+  - change (sstep kd m Next (abs kd s)) with (sstep kd m (Get TNone) (abs kd s)). eapply sim_get; eauto.
   - eapply sim_task_done; eauto.
   - eapply sim_join; eauto.
   - inversion H; subst. apply sim_expire. exact I.
